@@ -50,6 +50,9 @@ MIN = {'quick': {'distinct': 20000,
                  'strata': {'gf_split': 600, 'replace_parens': 300,
                             'gzip': 100, 'export v4': 150,
                             'tigerxml without VROOT node': 30, 'arity > 6': 50,
+                            'brackets_emptypos': 30,
+                            'gf_separator differs from the labels': 30,
+                            'word with non-ASCII space character': 30,
                             'cross-format agreement': 200,
                             'sweep: ill-formed group rejected': 20000,
                             'sweep: well-formed group decoded': 100,
@@ -156,13 +159,18 @@ def make_label(rng, cat, sep, allow):
     return lab, [cat, gf, gap, co, head]
 
 
-def make_bank(rng, fmt, decorated, sep, quick=True):
+def make_bank(rng, fmt, decorated, sep, quick=True, unispace=True):
     words = rng.choice([gen.WORDS_ASCII, gen.WORDS_ASCII + gen.PUNCT[:8]
                         + gen.COMMA, gen.WORDS_ASCII + gen.WORDS_NONASCII
                         + gen.WORDS_BEYOND_LATIN1,
                         gen.WORDS_ASCII + ['-LRB-', '-RRB-', '[', ']', '{',
                                            '}', '-LSB-', 'a[b]'],
                         gen.WORDS_ASCII + gen.WORDS_XML])
+    if unispace and fmt != 'export' and rng.random() < 0.15:
+        # characters that are white space for Unicode but not for the formats
+        # (the export reader splits fields on any Unicode white space, so the
+        # export format cannot carry them: excluded there)
+        words = words + gen.WORDS_UNISPACE
     if fmt in ('brackets', 'discobrackets'):
         words = [w for w in words if '(' not in w and ')' not in w]
     pools = gen.Pools(words=words, pos=gen.POS + ['$.', '$,', 'PRP$'],
@@ -189,9 +197,13 @@ def make_bank(rng, fmt, decorated, sep, quick=True):
     return bank
 
 
-def expected_node(n, fmt, opts, sep, is_root):
+def expected_node(n, fmt, opts, sep, is_root, mismatch=False):
     """(label, edge) the reader must give a node."""
     parts = n.attrs.get('parts')
+    if mismatch and parts is not None and parts[1]:
+        # the label contains no occurrence of the separator the reader was
+        # given: nothing to split off, the label stays as it is
+        parts = None
     label, edge = n.label, n.edge
     if fmt in ('brackets', 'discobrackets'):
         edge = '--'
@@ -211,25 +223,28 @@ def expected_node(n, fmt, opts, sep, is_root):
     return label, edge
 
 
-def compare_tree(got, exp, fmt, opts, sep, v4):
+def compare_tree(got, exp, fmt, opts, sep, v4, mismatch=False):
     """got: snapshot MN; exp: model from the spec."""
     def rec(g, e, path):
         if bool(g.children) != bool(e.children):
             return '%s: token vs constituent' % path
         is_root = e.parent is None
-        label, edge = expected_node(e, fmt, opts, sep, is_root)
+        label, edge = expected_node(e, fmt, opts, sep, is_root, mismatch)
         if is_root and fmt == 'export':
             label = 'VROOT'
         if is_root and fmt in ('brackets', 'discobrackets') and \
                 e.attrs.get('_emptyroot'):
             label = 'VROOT'
-        if g.label != label:
+        if g.label != label and not e.attrs.get('emptypos'):
             return '%s: label %r, expected %r' % (path, g.label, label)
         if not (is_root and fmt in ('brackets', 'discobrackets')
                 and e.attrs.get('_emptyroot')):
             if g.edge != edge and not (is_root and fmt == 'tigerxml'):
                 return '%s: edge %r, expected %r' % (path, g.edge, edge)
         if not e.children:
+            if e.attrs.get('emptypos') and g.label != 'EMPTY':
+                return '%s: token without POS tag read with label %r, ' \
+                    'expected EMPTY' % (path, g.label)
             word = e.word
             if 'replace_parens' in opts:
                 word = codec.replace_parens(word)
@@ -376,7 +391,8 @@ def run_case(ctx, case, probe_obj=None):
         if 'disco_reordered' in opts:
             ctx.stratum('disco_reordered (unjudged)')
             continue
-        diff = compare_tree(got, exp, fmt, opts, sep, v4)
+        diff = compare_tree(got, exp, fmt, opts, sep, v4,
+                            case.get('mismatch', False))
         if diff:
             mech = '%s-decoded-tree-differs' % fmt
             if 'gf_split' in opts and ('label' in diff or 'edge' in diff):
@@ -394,6 +410,11 @@ def run_case(ctx, case, probe_obj=None):
         ctx.stratum(o)
     if case.get('gz'):
         ctx.stratum('gzip')
+    if case.get('mismatch'):
+        ctx.stratum('gf_separator differs from the labels')
+    if any(c in t['w'] for sp in bank for t in gen.tokens_of(sp['root'])
+           for c in '\u00a0\u3000\u2009'):
+        ctx.stratum('word with non-ASCII space character')
     if v4:
         ctx.stratum('export v4')
     if fmt == 'tigerxml' and eo.get('no_vroot') and all(
@@ -422,6 +443,13 @@ def draw_case(rng, fmt, quick):
             opts['gf_separator'] = sep
     if not decorated:
         sep = '-'
+    mismatch = False
+    if decorated and 'gf_split' in opts and rng.random() < 0.15:
+        # the reader is told another separator than the labels use
+        mismatch = True
+        opts['gf_separator'] = '#' if sep == '-' else '-'
+        if opts['gf_separator'] == '-':
+            opts.pop('gf_separator')
     if rng.random() < 0.25:
         opts['replace_parens'] = True
     eo = {}
@@ -439,6 +467,9 @@ def draw_case(rng, fmt, quick):
             opts['brackets_firstid'] = rng.choice([0, 7, 1000])
         eo = {'empty_root': rng.random() < 0.5,
               'layout': rng.choice(['line', 'pretty', 'random', 'random'])}
+        if rng.random() < 0.2:
+            opts['brackets_emptypos'] = True
+            eo['emptypos'] = True
     elif fmt == 'discobrackets':
         if rng.random() < 0.3:
             opts['brackets_firstid'] = rng.choice([0, 7, 1000])
@@ -454,9 +485,15 @@ def draw_case(rng, fmt, quick):
               'omit_optional': rng.random() < 0.15,
               'no_vroot': rng.random() < 0.4}
     case = {'kind': 'bank', 'fmt': fmt, 'opts': opts, 'enc_opts': eo,
-            'sep': sep, 'gz': fmt != 'tigerxml' and rng.random() < 0.15,
+            'sep': sep, 'mismatch': mismatch,
+            'gz': fmt != 'tigerxml' and rng.random() < 0.15,
             'layout_seed': rng.randrange(10 ** 6)}
     case['bank'] = make_bank(rng, fmt, decorated, sep, quick)
+    if eo.get('emptypos'):
+        for sp in case['bank']:
+            for t in gen.tokens_of(sp['root']):
+                if rng.random() < 0.4:
+                    t['x'] = {'emptypos': True}
     return case
 
 
@@ -464,7 +501,7 @@ def cross_format(ctx, rng):
     """gf_split / replace_parens have the same effect in every format that
     offers them: one continuous treebank, three formats, same options."""
     sep = rng.choice(['-', '-', '#'])
-    bank = make_bank(rng, 'brackets', True, sep)
+    bank = make_bank(rng, 'brackets', True, sep, unispace=False)
     opts = {'quiet': True, 'gf_split': True}
     if sep != '-':
         opts['gf_separator'] = sep
